@@ -672,7 +672,14 @@ def c19_a(ctx):
             worlds = fl.at_stmt(b, j) if j >= 0 else fl.at_term(b)
             good, w = all_worlds_satisfy(worlds, lambda dw: val_not(dw, "self.state", {"Suspended"}))
             if not good:
-                badw = (b, w)
+                # the returned value may itself be the test (`pending && self.state != Suspended`): a true result
+                # then implies state != Suspended
+                ebr = ExprBuilder(ctx.prog, f)
+                e = ebr.rvalue(rv) if j >= 0 else ebr.call(b, rv)
+                cs = fl.cond._cons(f, e, BOOL_TRUE, 0)
+                implied = any(k == ("val", "self.state") and ((not pos and "Suspended" in vals) or (pos and "Suspended" not in vals and vals)) for k, (pos, vals) in cs)
+                if not implied:
+                    badw = (b, w)
         key = "%s::has_pdu_to_send" % nm
         if badw:
             yield bad("C19-A", key, at(f), "has_pdu_to_send can return a non-false value while state == Suspended (bb%d, state %s)" % (badw[0], world_str(badw[1])))
